@@ -204,6 +204,8 @@ def rule_R1(text, log):
         if t.kind == 'ident' and toks[k + 1].text == '!' and toks[k + 2].text in ('(', '[', '{'):
             if t.text == 'format':
                 e = match_close(toks, k + 2)
+                if e + 4 < len(toks) and [x.text for x in toks[e + 1:e + 5]] == ['.', 'into', '(', ')']:
+                    e += 4
                 edits.append(Edit(t.start, toks[e].end, 'verif_msg()', 'R1', ''))
                 log.append(('R1', text[t.start:toks[e].end], 'verif_msg()'))
                 k = e + 1
